@@ -466,13 +466,13 @@ def _rel_edges_direct(t, fn, lhs_pred, rhs_pred, rel):
 
 
 
-def rel_edges(t, fn, lhs_pred, rhs_pred, rel):
+def rel_edges(t, fn, lhs_pred, rhs_pred, rel, also=()):
     """as _rel_edges_direct, plus conditions materialised into a bool local: `let ok = a == x && b == y; if !ok { return }`. The true edge of a
     test on such a local implies the relation if every way the local can be true does (the alternative is the comparison itself, or it is
     assigned in a block that is already behind an edge with the relation); symmetrically for the false edge and `||`."""
     direct = list(_rel_edges_direct(t, fn, lhs_pred, rhs_pred, rel))
     for e, br in direct: yield e, br
-    dedges = [e for e, _ in direct]
+    dedges = [e for e, _ in direct] + list(also)   # `also`: edges the caller accepts as equally good (e.g. "never sent before")
     def alt_holds(alt, bb, want_true):
         a = alt; neg = False
         while isinstance(a, tuple) and a[0] == "un" and a[1] == "Not": neg = not neg; a = a[2]
